@@ -12,8 +12,13 @@ be evaluated by CPython in comptime mode, which is C04's comparison, not this on
 body text* is emitted under `@guppy` and under `@guppy.comptime`; `main` calls both on 2-3 drawn
 input tuples; 20-30 cases share one emulated program.  Every run first enumerates ALL reflected
 forms `constant OP traced` (18 operators x operand classes int/int, int/nat, float/int,
-int/float, float/float, bool/bool = 74 forms, two constants each, split over the shards), then
-searches random trees.
+int/float, float/float, bool/bool = 74 forms, two constants each, split over the shards) and ALL
+ordered pairs of Python constants that compare equal in Python but are different Guppy values
+(0 / 0.0 / -0.0 / False, 1 / 1.0 / True, 2 / 2.0, -1 / -1.0: 22 pairs, two bodies each), both used
+in ONE body - each as operand of an operator or helper call with a traced value, or as a bare
+container element - and returned side by side in a tuple / array / struct, then searches random
+trees (float constants include -0.0; a later float constant of a body repeats an earlier one or
+is its signed-zero twin with probability 1/3).
 Operand roles keep every operator defined: divisors are non-zero constants or the parameters
 `p z m` (inputs drawn non-zero), shift amounts and exponents are small constants or `s m`
 (inputs 0..6), `int(.)` is applied to floats of bounded magnitude only; runtime float `// %` and
@@ -228,6 +233,21 @@ def feature(e):
 
 def features(e):
     return sorted({feature(s) for s in subtrees(e) if s["k"] not in ("p", "c")})
+
+
+# Python constants that compare (and hash) equal in Python but denote different Guppy values
+EQ_GROUPS = [[("0", "int"), ("0.0", "float"), ("-0.0", "float"), ("False", "bool")],
+             [("1", "int"), ("1.0", "float"), ("True", "bool")],
+             [("2", "int"), ("2.0", "float")],
+             [("-1", "int"), ("-1.0", "float")]]
+EQ_PAIRS = [(c1, c2) for grp in EQ_GROUPS for c1 in grp for c2 in grp if c1 != c2]
+
+
+def has_equal_constants(e):
+    """two constants in the body that Python's == cannot tell apart although text or type differ"""
+    cs = sorted({(s["v"], s["t"]) for s in subtrees(e) if s["k"] == "c" and s["t"] in ("int", "float", "bool")})
+    val = {"True": 1, "False": 0}
+    return any(float(val.get(v1, v1)) == float(val.get(v2, v2)) for i, (v1, _) in enumerate(cs) for v2, _ in cs[i + 1:])
 
 
 def has_reflected(e):
@@ -473,7 +493,12 @@ def localise(case, r):
             c1 = dict(c)
             if rr["status"] == "mismatch":
                 c1["inputs"] = [c["inputs"][rr["input"]]]
-            return feature(c["expr"]), c1, rr
+            feat = feature(c["expr"])
+            if c["expr"] is case["expr"] and len(cand) > 1 and has_equal_constants(c["expr"]):
+                # no operation disagrees on its own, only their combination in one body does, and the body
+                # uses constants that are equal in Python: the operations are not the signature
+                feat = "constants.equal_in_python"
+            return feat, c1, rr
     return feature(case["expr"]), case, r
 
 
@@ -540,7 +565,7 @@ def strategies(excl, shard=0, nshards=1):
     from hypothesis import strategies as st
 
     INT_C = ["0", "1", "2", "3", "5", "7", "-1", "-2", "-7", "10", "255", "2147483648", "-4611686018427387904"]
-    FLT_C = ["0.5", "1.5", "2.0", "-2.5", "0.0", "3.25", "-1.0", "100.0"]
+    FLT_C = ["0.5", "1.5", "2.0", "-2.5", "0.0", "-0.0", "3.25", "-1.0", "100.0"]
 
     class G:
         """All choices come from one `random.Random` drawn from Hypothesis (st.randoms, seeded by the
@@ -550,6 +575,7 @@ def strategies(excl, shard=0, nshards=1):
         def __init__(self, rnd):
             self.rnd = rnd
             self.excluded = []
+            self.fl_used = []
 
         def pick(self, xs):
             return self.rnd.choice(xs)
@@ -688,7 +714,50 @@ def strategies(excl, shard=0, nshards=1):
 
         # ---- float
         def flt_const(self):
-            return C(self.pick(FLT_C), "float")
+            """a later float constant of the same body is, one time in three, an earlier one again or (for a
+            zero) the zero of the other sign: equal in Python, not the same IEEE value"""
+            if self.fl_used and self.coin(1, 3):
+                v = self.pick(self.fl_used)
+                v = {"0.0": "-0.0", "-0.0": "0.0"}.get(v, v)
+            else:
+                v = self.pick(FLT_C)
+            self.fl_used.append(v)
+            return C(v, "float")
+
+        def const_use(self, c, bare_ok):
+            """the constant c = (text, type) turned into a Guppy value: operand (either side) of an operator
+            / argument of a helper applied to a traced leaf, or bare (a container element)"""
+            v, t = c
+            k = C(v, t)
+            if bare_ok and self.coin(1, 6):
+                return k
+            if t == "float":
+                w = self.ri(0, 5)
+                if w == 0:
+                    return CALL("g_scale", [k, P(self.pick(["s", "p"]))], "float")
+                if w == 1:
+                    return self.fix_bin("/", k, P(self.pick(["z", "p"])), None)
+                op, q = self.pick(["*", "*", "*", "+", "-"]), P(self.pick(["x", "y", "z"]))
+            elif t == "int":
+                if self.coin(1, 6):
+                    return CALL("g_add", [k, P("a")] if self.coin() else [P("b"), k], "int")
+                op, q = self.pick(["+", "-", "*", "&", "|", "^"]), P(self.pick(["a", "b"]))
+            else:
+                op, q = self.pick(["&", "|", "^", "==", "!="]), P(self.pick(["c", "d"]))
+            return self.fix_bin(op, k, q, None) if self.coin() else self.fix_bin(op, q, k, None)
+
+        def eq_pair(self, c1, c2):
+            """both constants used in one body, results side by side"""
+            bare = self.ri(0, 2)  # which component may stay a bare constant (2: none)
+            es = [self.const_use(c1, bare == 0), self.const_use(c2, bare == 1)]
+            if is_const(es[0]) and is_const(es[1]):
+                es[1] = self.const_use(c2, False)
+            t1, t2 = es[0]["t"], es[1]["t"]
+            if t1 == t2 and t1 in ("int", "float") and self.coin(1, 3):
+                return {"k": "arr", "es": es, "t": f"array[{t1}, 2]"}
+            if (t1, t2) == ("int", "float") and self.coin(1, 3):
+                return {"k": "st", "es": es, "t": "S"}
+            return {"k": "tup", "es": es, "t": f"tuple[{t1}, {t2}]"}
 
         def nonzero_div(self):
             w = self.ri(0, 5)
@@ -984,7 +1053,23 @@ def strategies(excl, shard=0, nshards=1):
                             "excluded": g.excluded})
         return out
 
-    return case(), enumerated()
+    @st.composite
+    def equal_constants(draw):
+        """this shard's slice of ALL ordered pairs of equal-in-Python constants, two bodies each"""
+        rnd = draw(st.randoms(use_true_random=True))
+        out = []
+        for idx, (c1, c2) in enumerate(EQ_PAIRS):
+            if idx % nshards != shard % nshards:
+                continue
+            for _rep in range(2):
+                g = G(rnd)
+                e = g.eq_pair(c1, c2)
+                ni = g.ri(2, 3)
+                out.append({"expr": e, "inputs": [{p: gen_input(rnd, PARAMS[p][1]) for p in params_of(e)} for _ in range(ni)],
+                            "excluded": g.excluded})
+        return out
+
+    return case(), enumerated(), equal_constants()
 
 
 def labels_of(case, r):
@@ -994,6 +1079,8 @@ def labels_of(case, r):
         labs.append("f:" + f)
     if has_reflected(e):
         labs.append("has:reflected")
+    if has_equal_constants(e):
+        labs.append("has:equal_constants")
     return labs
 
 
@@ -1002,7 +1089,7 @@ def worker(ctx):
 
     excl = active_exclusions()
     ctx.notes["active_exclusions"] = sorted(excl)
-    one, enum = strategies(excl, ctx.shard, ctx.nshards)
+    one, enum, eqc = strategies(excl, ctx.shard, ctx.nshards)
     B = ctx.params["batch"]
     found = {}  # preliminary bucket -> (case, r)
     tot = {"n": 0, "both_reject": 0}
@@ -1050,6 +1137,7 @@ def worker(ctx):
 
     # systematic part: every reflected operator x operand class (split over the shards), then random search
     harness.hyp_search(ctx, enum, lambda cs: [collect(c) for c in cs], max_examples=1, chunk=1, time_frac=0.55, extra_seed=7)
+    harness.hyp_search(ctx, eqc, lambda cs: [collect(c) for c in cs], max_examples=1, chunk=1, time_frac=0.55, extra_seed=11)
     harness.hyp_search(ctx, one, collect, max_examples=ctx.params["n"] * B, chunk=B * 2, time_frac=0.55)
     if pending and not ctx.out_of_time(0.55):
         body(list(pending))
@@ -1141,7 +1229,9 @@ SPEC = harness.Spec(
           "with >= 1 traced operand, plus 2-3 input tuples (boundary-biased ints up to +-2^63-1, floats in [-100, 100], divisors "
           "non-zero, shift amounts / exponents 0..6); the same body text is compiled under @guppy and @guppy.comptime and both are "
           "run from one main (B cases per emulated program); each run starts with the enumeration of all 74 reflected forms constant-OP-traced "
-          "(x2 constants, split over the shards). non-trivial = case accepted by both modes with equal streams whose body "
+          "(x2 constants, split over the shards) and of all 22 ordered pairs of constants that are equal in Python but distinct in "
+          "Guppy (0/0.0/-0.0/False, 1/1.0/True, 2/2.0, -1/-1.0; x2 bodies using both, results side by side in a tuple/array/struct); "
+          "random float constants include -0.0 and repeat / sign-flip an earlier zero of the body 1 time in 3. non-trivial = case accepted by both modes with equal streams whose body "
           "has a Python constant as *left* operand of an operator applied to a traced value; distinct = distinct (body, type, inputs). "
           "Stage 2: straight-line bodies of 2-7 statements over non-copyable structs (array + int + tuple fields), a nested struct, a "
           "local array and a tuple holding an array: borrowing calls that mutate or replace the value (mem_swap in the callee or the "
